@@ -417,6 +417,7 @@ def cmd_check(args):
         "fault_kinds_configured": total["faults_cfg"],
         "distinct_schedules": len(total["schedule_keys"]),
         "distinct_abstract_states": len(total["state_keys"]),
+        "state_measure": getattr(eng, "STATE_MEASURE", {}).get(prop, ""),
         "reach_probes": total["probes"],
         "dead_probes": dead,
         "observations_not_judged": total["obs"],
